@@ -306,6 +306,21 @@ func symConvHook(i *interpreter, utDst, utSrc types.Type, x value) (value, bool)
 					return mkStr(append([]value{}, xv...)), true
 				}
 			}
+			if b, ok := s.Elem().Underlying().(*types.Basic); ok && b.Kind() == types.Rune && containsSym(x) {
+				// string([]rune) with symbolic runes: concatenation of the
+				// UTF-8 encodings (each forks on its length)
+				if d, ok := utDst.(*types.Basic); ok && d.Kind() == types.String {
+					var out []value
+					for _, r := range xv {
+						if rs, ok := r.(sym); ok {
+							out = append(out, strBytes(i.x.runeToString(rs))...)
+						} else {
+							out = append(out, strBytes(string(rune(asInt64(r))))...)
+						}
+					}
+					return mkStr(out), true
+				}
+			}
 		}
 	}
 	return nil, false
